@@ -34,7 +34,9 @@ def fits_annotation(repo, callee, p, v) -> bool:
     if isinstance(v, (NoneV, MaybeV, Opaque)):
         return True
     if ty.kind == "cls":
-        return isinstance(v, ObjV) and v.cls.name == ty.cls.name
+        def is_a(c, want, depth=0):
+            return c.name == want or (depth < 8 and any(is_a(b, want, depth + 1) for b in getattr(c, "base_classes", [])))
+        return isinstance(v, ObjV) and is_a(v.cls, ty.cls.name)
     if ty.kind in ("float", "int"):
         return isinstance(v, (Num, BoolV))
     if ty.kind == "str":
